@@ -83,6 +83,11 @@ type NCRec struct {
 	FailedMsg   string
 	Input       string
 	FramedInput string
+	// what the response object the caller kept says at the end of the session (the library must
+	// not change a response it has handed out)
+	resp       *response.NetconfResponse
+	InputAtEnd string
+	RawAtEnd   string
 	Raw         string
 	Panicked    bool
 	Skipped     bool
@@ -345,6 +350,7 @@ func (nr *NCRun) workload(env *Env) {
 				rec.Input = string(r.Input)
 				rec.FramedInput = string(r.FramedInput)
 				rec.Raw = string(r.RawResult)
+				rec.resp = r
 			}
 		})
 		rec.End = k.Now()
@@ -362,6 +368,11 @@ func (nr *NCRun) workload(env *Env) {
 			nr.ResumeT = k.Now()
 			nr.Tr.Resume()
 			time.Sleep(sc.readDelay()*4 + sc.Net.LatMax*8)
+		}
+	}
+	for i := range nr.Recs {
+		if r := nr.Recs[i].resp; r != nil {
+			nr.Recs[i].InputAtEnd, nr.Recs[i].RawAtEnd = string(r.Input), string(r.RawResult)
 		}
 	}
 }
